@@ -64,6 +64,7 @@ type lexer struct {
 	env   *ExecEnv
 	r     io.RuneScanner
 	n     int
+	skip  int // > 0 in an operand of && || ?: that is not evaluated
 	token chan interface{}
 	done  chan struct{}
 
@@ -397,19 +398,22 @@ func (l *lexer) Error(s string) {
 		}
 		// the parser does not ask for further tokens
 		l.stop()
+	case l.skip > 0:
+		return // a fault in an operand that is not evaluated
 	case strings.HasPrefix(s, "runtime error: "):
 		s = s[15:]
 	}
 	l.err = ArithExprError{Msg: s}
 }
 
-// set assigns n to the variable unless the evaluation has failed: the value
-// would have been computed from operands that do not exist.
+// set assigns n to the variable unless the evaluation has failed (the value
+// would have been computed from operands that do not exist) or the
+// assignment stands in an operand that is not evaluated.
 func (l *lexer) set(name string, n int) {
 	l.mu.Lock()
 	failed := l.err != nil
 	l.mu.Unlock()
-	if !failed {
+	if !failed && l.skip == 0 {
 		l.env.Set(name, strconv.Itoa(n))
 	}
 }
